@@ -303,3 +303,71 @@ def build_bay(d):
         else:
             bay.add_tstiff2d(s['ys'], **kw)
     return bay
+
+
+# ----------------------------------------------------------------------------
+# panel assemblies with penalty connections
+# ----------------------------------------------------------------------------
+CONN_KINDS = ('SSycte', 'SSxcte', 'BFycte', 'BFxcte', 'SB')
+
+
+def assembly_desc(rng, npan=None, mmax=5, kinds=CONN_KINDS, models=('plate', 'cpanel'), interior=True, shuffle=True):
+    """chain of panels joined by penalty connections; geometric precondition of a
+    line connection (equal interface length) / surface connection (equal a, b) is built in."""
+    if npan is None:
+        npan = int(rng.integers(2, 5))
+    a0 = logu(rng, 0.2, 5)
+    b0 = a0 * logu(rng, 0.4, 2.5)
+    t = min(a0, b0) * logu(rng, 3e-3, 2e-2)
+    panels = []
+    conns = []
+    for k in range(npan):
+        d = panel_desc(rng, model=str(rng.choice(list(models))), mmax=mmax, sub=False, place=False,
+                       lam=laminate(rng, nmax=4, tscale=t / 3, offset_prob=0.0))
+        d['m'] = max(d['m'], 2); d['n'] = max(d['n'], 2)
+        if k == 0:
+            d['a'], d['b'] = a0, b0
+        else:
+            kind = str(rng.choice(list(kinds)))
+            prev = panels[-1]
+            c = {'func': kind, 'p1': k - 1, 'p2': k}
+            if kind in ('SSycte', 'BFycte'):
+                d['a'] = prev['a']
+                d['b'] = prev['b'] * logu(rng, 0.3, 2)
+                pos1 = float(rng.choice([0.0, prev['b']])) if (not interior or rng.random() < 0.6) else float(rng.uniform(0, prev['b']))
+                if kind == 'BFycte' and interior and rng.random() < 0.7:
+                    pos1 = float(rng.uniform(0, prev['b']))
+                pos2 = float(rng.choice([0.0, d['b']])) if (not interior or rng.random() < 0.7) else float(rng.uniform(0, d['b']))
+                c.update(ycte1=pos1, ycte2=pos2)
+            elif kind in ('SSxcte', 'BFxcte'):
+                d['b'] = prev['b']
+                d['a'] = prev['a'] * logu(rng, 0.3, 2)
+                pos1 = float(rng.choice([0.0, prev['a']])) if (not interior or rng.random() < 0.6) else float(rng.uniform(0, prev['a']))
+                if kind == 'BFxcte' and interior and rng.random() < 0.7:
+                    pos1 = float(rng.uniform(0, prev['a']))
+                pos2 = float(rng.choice([0.0, d['a']])) if (not interior or rng.random() < 0.7) else float(rng.uniform(0, d['a']))
+                c.update(xcte1=pos1, xcte2=pos2)
+            else:
+                d['a'], d['b'] = prev['a'], prev['b']
+            conns.append(c)
+        if d['model'] == 'cpanel':
+            d['r'] = d['b'] * logu(rng, 0.5, 1e3)
+        own = 3 * d['m'] * d['n']
+        d['row0'] = 0
+        d['size'] = own
+        panels.append(d)
+    order = [int(i) for i in (rng.permutation(npan) if shuffle else np.arange(npan))]
+    return {'panels': panels, 'conns': conns, 'order': order}
+
+
+def build_assembly(ad):
+    from compmech.panel.assembly import PanelAssembly
+    ps = [build_panel(d) for d in ad['panels']]
+    conn = []
+    for c in ad['conns']:
+        cc = dict(c)
+        cc['p1'] = ps[c['p1']]
+        cc['p2'] = ps[c['p2']]
+        conn.append(cc)
+    ass = PanelAssembly([ps[i] for i in ad['order']], conn=conn if conn else None)
+    return ass, ps, conn
